@@ -30,7 +30,7 @@ KEYS12 = ["A", "H2O", "H+", "OH-", "e-", "Fe+3", "NO3-'", "CO2(g)", ".OH", "[Fe(
 KEYS6 = ["A", "H+", "e-", "NO3-'", "[Fe(CN)6]-3", "(NH4)2SO4"]
 COEFS = [("", 1), ("2 ", 2), ("3 * ", 3), ("2.0 ", 2.0), ("10 ", 10), ("1000 ", 1000)]
 ICOEFS = [("", 1), ("2 ", 2)]
-PARAMS = [("7", 7), ("1e-30", 1e-30), ("2.5e17", 2.5e17), ("'k1'", "k1")]
+PARAMS = [("7", 7), ("1e-30", 1e-30), ("2.5e17", 2.5e17), ("'k1'", "k1"), ("0", 0)]
 ARROWS = {"Reaction": " -> ", "Equilibrium": " = "}
 
 SYS_POOL = [
@@ -399,6 +399,40 @@ def check_decimal(res, cls_name, shape, dec, ptxt):
         res.violation("C12|%s|str-roundtrip|decimal-coefficient" % cls_name, "%r prints as %r, which does not parse back to an equal %s (%r)" % (text, printed, cls_name, same), case, printed, text)
 
 
+def check_dont_check_history(res, cls_name):
+    """the same decimal line read four times in a row with dont_check={'all_integral'} (and a two-line system carrying that
+    keyword on both lines): every reading succeeds and gives the written coefficients; the class-level defaults stay as they were"""
+    import chempy
+
+    cls = getattr(chempy, cls_name)
+    arrow = "->" if cls_name == "Reaction" else "="
+    text = "H2O2 %s 0.5 O2 + H2O; 4.2e-3" % arrow
+    before = set(cls.default_checks)
+    case = dict(kind="dont-check-history", cls=cls_name)
+    res.states += 1
+    res.transitions += 4
+    res.nontrivial += 1
+    obs = []
+    for n in range(4):
+        res.evaluations += 1
+        try:
+            r = cls.from_string(text, dont_check={"all_integral"})
+            obs.append(dict(r.prod) == {"O2": 0.5, "H2O": 1} and dict(r.reac) == {"H2O2": 1})
+        except Exception as e:
+            obs.append("EXC %s" % type(e).__name__)
+    try:
+        other = chempy.Reaction if cls_name == "Equilibrium" else chempy.Equilibrium
+        obs.append(dict(other.from_string(text.replace(arrow, "=" if arrow == "->" else "->"), dont_check={"all_integral"}).prod) == {"O2": 0.5, "H2O": 1})
+    except Exception as e:
+        obs.append("EXC %s" % type(e).__name__)
+    after = set(cls.default_checks)
+    ok = obs == [True] * 5 and after == before
+    res.outcomes["dont-check-history-ok" if ok else "dont-check-history-WRONG"] += 1
+    if not ok:
+        res.violation("C12|%s.from_string|dont_check-history" % cls_name, "%r read four times with dont_check={'all_integral'} (then once as the other class): %r; default_checks before %r, after %r" % (
+            text, obs, sorted(before), sorted(after)), case, [obs, sorted(after)], [[True] * 5, sorted(before)])
+
+
 def chunks(tier):
     out = [("DC", cls) for cls in ("Reaction", "Equilibrium")]
     for (cls, layer), N in sorted(LAYERS[tier].items(), key=lambda kv: (kv[1], kv[0])):
@@ -418,6 +452,7 @@ def run_chunk(chunk, tier):
             for dec in DEC:
                 for ptxt in ("", "; 4.2e-3"):
                     check_decimal(res, chunk[1], shape, dec, ptxt)
+        check_dont_check_history(res, chunk[1])
         res.sample(dict(layer="DC", cls=chunk[1], coefficients=DEC, example="H2O2 -> 0.5 O2 + H2O; 4.2e-3"))
         return res
     if chunk[0] == "Y":
@@ -451,7 +486,9 @@ def run_chunk(chunk, tier):
 
 def replay(case):
     res = Result()
-    if case.get("kind") == "decimal":
+    if case.get("kind") == "dont-check-history":
+        check_dont_check_history(res, case["cls"])
+    elif case.get("kind") == "decimal":
         check_decimal(res, case["cls"], case["shape"], case["dec"], case["ptxt"])
     elif case.get("kind") == "named-system":
         check_named_system(res, tuple(case["sel"]))
